@@ -17,7 +17,8 @@ SIZES = [1024, 1025, 1536, 2047, 4041, 4095, 4096, 4097, 8192, 12345, 16384, 490
 REG_POOL = [0, 1, 0xFFFFFFFFFFFFFFFF, 0x8000000000000000, 0x7FFFFFFFFFFFFFFF, 0xDEADBEEFCAFEF00D, 0x0123456789ABCDEF]
 
 RULE = ("Hypothesis generates switch scripts: 2-8 contexts (index 0 = the driving pthread) with stack sizes from {1 KiB .. 1 MiB, odd sizes, non-multiples of 16 and of the page size}, "
-        "1-40 switches whose targets are any other context (A->B->A, chains, switching into fresh contexts, back to the thread), six generated 64-bit values per switch planted into "
+        "1-40 switches whose targets are any other context (A->B->A, chains, switching into fresh contexts, back to the thread), about one switch in seven made with 1-40 further 4 KiB "
+        "pattern-filled frames live on the stack (clamped to the stack size for fixed stacks; a split stack is then suspended on a later segment than it was created with), six generated 64-bit values per switch planted into "
         "rbx, rbp, r12-r15 by an assembly shim, and optionally a second pthread that resumes the contexts the first one suspended; every script runs on all six builds of "
         "fiber_context.c (split|mmap|malloc stacks x assembly|ucontext switching). Oracle: registers, rsp and a 16-word stack frame on resumption equal those at suspension; a fresh "
         "context gets its argument in rdi, rsp = 8 (mod 16) at entry and inside its own stack; stacks pairwise disjoint; destroy releases each stack "
@@ -38,7 +39,8 @@ def script(draw, tier):
     for _ in range(n):
         tgt = draw(st.sampled_from([i for i in range(nctx) if i != cur]))
         regs = [draw(st.one_of(st.sampled_from(REG_POOL), st.integers(0, 2**64 - 1))) for _ in range(6)]
-        steps.append((tgt, regs))
+        depth = draw(st.sampled_from([1, 2, 5, 6, 8, 16, 40])) if draw(st.integers(0, 6)) == 0 else 0
+        steps.append((tgt, regs, depth))
         cur = tgt
     phase2 = draw(st.one_of(st.none(), st.integers(1, n))) if n >= 2 else None
     return {"nctx": nctx, "sizes": sizes, "steps": steps, "phase2": phase2}
@@ -50,8 +52,10 @@ def render(sc):
         lines.append("size %d %d" % (i + 1, s))
     if sc["phase2"] is not None:
         lines.append("phase2 %d" % sc["phase2"])
-    for tgt, regs in sc["steps"]:
+    for i, (tgt, regs, depth) in enumerate(sc["steps"]):
         lines.append("step %d %s" % (tgt, " ".join("%x" % r for r in regs)))
+        if depth:
+            lines.append("deep %d %d" % (i, depth))
     return "\n".join(lines) + "\n"
 
 
@@ -67,7 +71,7 @@ def run_variant(variant, text, workdir, tag=""):
     out = p.stdout.decode(errors="replace")
     if p.returncode == 0 and out.startswith("OK"):
         kv = dict(x.split("=") for x in out.split()[1:])
-        return {"status": "ok", "resumes": int(kv["resumes"]), "fresh": int(kv["fresh"]), "switches": int(kv["switches"])}
+        return {"status": "ok", "resumes": int(kv["resumes"]), "fresh": int(kv["fresh"]), "switches": int(kv["switches"]), "deep": int(kv.get("deep", 0))}
     if "VIOLATION" in out:
         line = [l for l in out.split("\n") if l.startswith("VIOLATION")][0]
         kind = line.split("kind=")[1].split(" ")[0]
@@ -105,6 +109,8 @@ def custom(prop, tier, seed_value, write_evidence, save_replay, spec):
             stats["classes"]["tiny_stack"] = stats["classes"].get("tiny_stack", 0) + 1
         for v, fu in futs.items():
             r = fu.result()
+            if r.get("deep"):
+                stats["classes"]["deep_stack_switch:" + v.split("_")[0]] = stats["classes"].get("deep_stack_switch:" + v.split("_")[0], 0) + 1
             stats["evaluations"] += 1
             stats["by_variant"][v] += 1
             if r["status"] == "ok":
